@@ -1,5 +1,5 @@
 (* C04 - Decoding untrusted CTAP2 bytes never panics, aborts or hangs. *)
-From Ctap Require Import Base Schema Wire Utf8 Typed Procs Inst Tables ProcTables CborItem WireP SkipP TypedP FramingP C11P Finite Utf8P StrsP SerP TotalP ObRequestSide ObOpTables ObRequestTotal.
+From Ctap Require Import Base Schema Wire Utf8 Typed Procs Inst Tables ProcTables CborItem WireP SkipP TypedP FramingP C11P Finite Utf8P StrsP SerP TotalP ObRequestSide ObOpTables ObRequestTotal FnShapes Shapes ObShapeRequest ObShapeStrings.
 Local Open Scope string_scope.
 Local Open Scope Z_scope.
 
@@ -132,6 +132,13 @@ Theorem c04_generated_route : forall f b, In f all_feats -> 0 <= b < 256 ->
   route_of (gen_tables f) b = spec_route b.
 Proof. exact generated_route. Qed.
 
+(* tie to the source for the hand-modelled procedural code: the bodies of these functions, as regenerated from
+   /repo now, have the shape (literals, operators, calls, control flow, constants) the model was written against *)
+Theorem c04_modelled_functions_unchanged_request : shapes_hold fn_shapes shapes_request = true.
+Proof. exact generated_shapes_request. Qed.
+Theorem c04_modelled_functions_unchanged_strings : shapes_hold fn_shapes shapes_strings = true.
+Proof. exact generated_shapes_strings. Qed.
+
 Eval vm_compute in "ASSUMPTIONS c04_deterministic". Print Assumptions c04_deterministic.
 Eval vm_compute in "ASSUMPTIONS c04_skipper_total". Print Assumptions c04_skipper_total.
 Eval vm_compute in "ASSUMPTIONS c04_readers_total". Print Assumptions c04_readers_total.
@@ -145,3 +152,5 @@ Eval vm_compute in "ASSUMPTIONS c04_request_types_decodable". Print Assumptions 
 Eval vm_compute in "ASSUMPTIONS c04_generated_request_types_decodable". Print Assumptions c04_generated_request_types_decodable.
 Eval vm_compute in "ASSUMPTIONS c04_request_deserialize_total". Print Assumptions c04_request_deserialize_total.
 Eval vm_compute in "ASSUMPTIONS c04_generated_request_deserialize_total". Print Assumptions c04_generated_request_deserialize_total.
+Eval vm_compute in "ASSUMPTIONS c04_modelled_functions_unchanged_request". Print Assumptions c04_modelled_functions_unchanged_request.
+Eval vm_compute in "ASSUMPTIONS c04_modelled_functions_unchanged_strings". Print Assumptions c04_modelled_functions_unchanged_strings.
